@@ -40,7 +40,8 @@ REQUIRED = ["cases", "emitted_frames_compared", "rewrites_checked",
             "ingress_dropped", "counters_compared", "controller_outputs",
             "flow_hits", "packet_outs",
             "frames_with_ports_only_inside_their_payload", "table_misses",
-            "released_through_a_buffer_id", "released_by_a_flow_mod"]
+            "released_through_a_buffer_id", "released_by_a_flow_mod",
+            "udp_checksums_that_come_out_as_zero_after_a_rewrite"]
 TIMEOUT = {"quick": 900, "thorough": 7200}
 
 NPORTS = 5
@@ -205,6 +206,8 @@ def run_case (case, rep):
   rep.count("cases")
   if case.get("desc", {}).get("kind") in ("icmp_quote", "gre_ip"):
     rep.count("frames_with_ports_only_inside_their_payload")
+  if case.get("desc", {}).get("kind") == "udp_zero_after":
+    rep.count("udp_checksums_that_come_out_as_zero_after_a_rewrite")
   try:
     rig.set_config(cfg)
     rig.clear_flows()
@@ -469,6 +472,32 @@ def gen_action (rng, allow_table):
   return dict(type=11, port=rng.choice([1, 2, 3]), queue_id=rng.choice([0, 5]))
 
 
+def udp_zero_after (rng):
+  """
+  A UDP datagram and a rewrite after which its checksum computes to 0x0000
+  (which has to go out as 0xffff: 0 means "no checksum").  The last payload
+  word is solved for: with that word 0 the rewritten datagram's checksum is
+  c, and a word of c makes the sum come out as all ones.
+  """
+  vlan = rng.choice([None, None, (3, 0, 100)])
+  sip, dip = 0x0a000001 + rng.randrange(4), 0x0a000101 + rng.randrange(4)
+  sp, dp = rng.choice([7, 4000, 65535]), rng.choice([9, 53, 6000])
+  act = rng.choice([dict(type=9, tp_port=rng.choice([1, 80, 65535])),
+                    dict(type=10, tp_port=rng.choice([0, 81, 65534])),
+                    dict(type=6, nw_addr=rng.choice([0x01020304, 0xc0a80001])),
+                    dict(type=7, nw_addr=rng.choice([0xffffffff, 0x0a0a0a0a]))])
+  n = rng.choice([2, 4, 18, 100])
+  pay = bytes(rng.getrandbits(8) for _ in range(n - 2)) + b"\0\0"
+  def frame (p):
+    return F.eth(framegen.MACS[1], framegen.MACS[0], 0x0800,
+                 F.ipv4(sip, dip, 17, F.udp(sp, dp, p, src=sip, dst=dip), ttl=64), vlan)
+  out = OA.run(frame(pay), [act, dict(type=0, port=1, max_len=0)], True)[0][1]
+  off = 14 + (4 if vlan else 0) + 20 + 6
+  c = struct.unpack_from("!H", out, off)[0]
+  raw = frame(pay[:-2] + struct.pack("!H", c))
+  return raw, act
+
+
 def gen_case (rng):
   via = rng.choice(["packet_out", "flow", "flow", "packet_out", "flow", "flow",
                     "miss", "buffered_miss", "buffered_action"])
@@ -499,6 +528,10 @@ def gen_case (rng):
     actions.append(gen_action(rng, allow_table) if rng.random() < 0.3 else
                    dict(type=0, port=rng.choice([1, 2, 3, OA.OFPP_FLOOD,
                                                  OA.OFPP_ALL]), max_len=0))
+  if via in ("flow", "packet_out") and rng.random() < 0.04:
+    raw, act = udp_zero_after(rng)
+    desc = dict(kind="udp_zero_after", tagged=False)
+    actions = [act, dict(type=0, port=rng.choice([1, 2, 3]), max_len=0)]
   case = dict(frame=raw, in_port=in_port, actions=actions, cfg=cfg, via=via,
               desc=desc)
   if via in ("miss",) + BUFFERED:
